@@ -55,36 +55,38 @@ theorem topNumerics_ok {S : SolverSt α} (iter : Nat) (hd : DataOK S.data)
 
 /-- [S] `scale_cones`: total up to the allowed numerical sites, and the cone objects stay
 consistently sized with the same layout -/
-theorem scaleCones_ok {E : String → Prop} (CS : ConeStage (α := α) E) {n m : Nat} {v : Vars α}
+theorem scaleCones_ok {E : String → Prop} {cspecs : List Kkt.ConeSpec} (CS : ConeStage (α := α) E cspecs) {n m : Nat} {v : Vars α}
     {cones : List (ConeSt α)} (mu : α) (dual : Bool)
-    (hc : ConesFull cones) (hm : numelAll cones = m) (hv : VarsSized n m v) :
+    (hc : ConesFull cones) (hm : numelAll cones = m) (hv : VarsSized n m v)
+    (hsp : cones.map ConeSt.kktSpec = cspecs) :
     OkOr E (scaleCones v cones mu dual) (fun r => ConesFull r.2
       ∧ r.2.map ConeSt.kktSpec = cones.map ConeSt.kktSpec ∧ numelAll r.2 = m) := by
   unfold scaleCones
   refine (CS.updateScaling cones v.s v.z mu dual hc (by rw [hm]; exact hv.s)
-    (by rw [hm]; exact hv.z)).mono fun r h => ?_
+    (by rw [hm]; exact hv.z) hsp).mono fun r h => ?_
   exact ⟨h.1, h.2.1, h.2.2.trans hm⟩
 
 /-- [S] `affine_step_rhs` -/
-theorem affineStepRhs_ok {E : String → Prop} (CS : ConeStage (α := α) E) {n m : Nat}
+theorem affineStepRhs_ok {E : String → Prop} {cspecs : List Kkt.ConeSpec} (CS : ConeStage (α := α) E cspecs) {n m : Nat}
     {self vars : Vars α} {r : Resid α}
     {cones : List (ConeSt α)} (hc : ConesFull cones) (hm : numelAll cones = m)
-    (hself : VarsSized n m self) (hr : ResidSized n m r) (hv : VarsSized n m vars) :
+    (hself : VarsSized n m self) (hr : ResidSized n m r) (hv : VarsSized n m vars)
+    (hsp : cones.map ConeSt.kktSpec = cspecs) :
     OkAnd (affineStepRhs self r vars cones) (VarsSized n m) := by
   unfold affineStepRhs
   refine (copyInto_ok "rhs.x" (hself.x.trans hr.rx.symm)).bind fun x hx => ?_
   refine (copyInto_ok "rhs.z" (hself.z.trans hr.rz.symm)).bind fun z hz => ?_
   refine (CS.affineDs cones self.s vars.s hc (by rw [hm]; exact hself.s)
-    (by rw [hm]; exact hv.s)).bind fun s hs => ?_
+    (by rw [hm]; exact hv.s) hsp).bind fun s hs => ?_
   subst hx hz
   exact .pure ⟨hr.rx, hs.trans hself.s, hr.rz⟩
 
 /-- [S] `combined_step_rhs` -/
-theorem combinedStepRhs_ok {E : String → Prop} (CS : ConeStage (α := α) E) {n m : Nat}
+theorem combinedStepRhs_ok {E : String → Prop} {cspecs : List Kkt.ConeSpec} (CS : ConeStage (α := α) E cspecs) {n m : Nat}
     {self vars step : Vars α} {r : Resid α}
     {cones : List (ConeSt α)} (σ μ mm : α) (hc : ConesFull cones) (hm : numelAll cones = m)
     (hself : VarsSized n m self) (hr : ResidSized n m r) (hv : VarsSized n m vars)
-    (hstep : VarsSized n m step) :
+    (hstep : VarsSized n m step) (hsp : cones.map ConeSt.kktSpec = cspecs) :
     OkAnd (combinedStepRhs self r vars cones step σ μ mm)
       (fun o => VarsSized n m o.1 ∧ VarsSized n m o.2) := by
   unfold combinedStepRhs
@@ -97,7 +99,7 @@ theorem combinedStepRhs_ok {E : String → Prop} (CS : ConeStage (α := α) E) {
     · unfold Vec.scale; rw [Array.size_map, hm]; exact hstep.z
     · rw [hm]; exact hstep.z
   refine (CS.combinedDsShift cones self.z _ step.s (σ * μ) hc (by rw [hm]; exact hself.z) hsz
-    (by rw [hm]; exact hstep.s)).bind fun o ho => ?_
+    (by rw [hm]; exact hstep.s) hsp).bind fun o ho => ?_
   obtain ⟨c1, c2, c3⟩ := ho
   obtain ⟨shift, stepz, steps⟩ := o
   dsimp only at c1 c2 c3 ⊢
@@ -110,22 +112,22 @@ theorem combinedStepRhs_ok {E : String → Prop} (CS : ConeStage (α := α) E) {
   exact c2.trans (hsz.trans hm)
 
 /-- [S] `calc_step_length` -/
-theorem calcStepLength_ok {E : String → Prop} (CS : ConeStage (α := α) E) {n m : Nat} (ls : LineSearch α)
+theorem calcStepLength_ok {E : String → Prop} {cspecs : List Kkt.ConeSpec} (CS : ConeStage (α := α) E cspecs) {n m : Nat} (ls : LineSearch α)
     {vars step : Vars α} {cones : List (ConeSt α)}
     (maxValue msf : α) (dir : StepDirection) (hc : ConesFull cones) (hm : numelAll cones = m)
-    (hv : VarsSized n m vars) (hs : VarsSized n m step) :
+    (hv : VarsSized n m vars) (hs : VarsSized n m step) (hsp : cones.map ConeSt.kktSpec = cspecs) :
     OkOr E (calcStepLength ls vars step cones maxValue msf dir) (fun _ => True) := by
   unfold calcStepLength
   dsimp only
   refine (CS.stepLength ls cones step.z step.s vars.z vars.s msf
     (Loop.Step.alphaMax vars.τ vars.κ step.τ step.κ maxValue) hc (by rw [hm]; exact hs.z)
-    (by rw [hm]; exact hs.s) (by rw [hm]; exact hv.z) (by rw [hm]; exact hv.s)).bind fun r _ => ?_
+    (by rw [hm]; exact hs.s) (by rw [hm]; exact hv.z) (by rw [hm]; exact hv.s) hsp).bind fun r _ => ?_
   exact .pure trivial
 
 /-- [S] `barrier(step, α, cones)` -/
-theorem barrier_ok {E : String → Prop} (CS : ConeStage (α := α) E) {n m : Nat} {v step : Vars α} (a : α)
+theorem barrier_ok {E : String → Prop} {cspecs : List Kkt.ConeSpec} (CS : ConeStage (α := α) E cspecs) {n m : Nat} {v step : Vars α} (a : α)
     {cones : List (ConeSt α)} (hc : ConesFull cones) (hm : numelAll cones = m)
-    (hv : VarsSized n m v) (hs : VarsSized n m step) :
+    (hv : VarsSized n m v) (hs : VarsSized n m step) (hsp : cones.map ConeSt.kktSpec = cspecs) :
     OkOr E (barrier v step a cones) (fun _ => True) := by
   unfold barrier
   dsimp only
@@ -135,16 +137,17 @@ theorem barrier_ok {E : String → Prop} (CS : ConeStage (α := α) E) {n m : Na
     exact .pure trivial
   refine (OkOr.of_okAnd hdot).bind fun sz _ => ?_
   refine (CS.computeBarrier cones v.z v.s step.z step.s a hc (by rw [hm]; exact hv.z)
-    (by rw [hm]; exact hv.s) (by rw [hm]; exact hs.z) (by rw [hm]; exact hs.s)).bind fun cb _ => ?_
+    (by rw [hm]; exact hv.s) (by rw [hm]; exact hs.z) (by rw [hm]; exact hs.s) hsp).bind fun cb _ => ?_
   exact .pure trivial
 
 /-- [S] `unit_initialization(cones)` -/
-theorem varsUnitInitialization_ok {E : String → Prop} (CS : ConeStage (α := α) E) {n m : Nat}
+theorem varsUnitInitialization_ok {E : String → Prop} {cspecs : List Kkt.ConeSpec} (CS : ConeStage (α := α) E cspecs) {n m : Nat}
     {v : Vars α} {cones : List (ConeSt α)} (hc : ConesFull cones) (hm : numelAll cones = m)
-    (hv : VarsSized n m v) : OkAnd (varsUnitInitialization v cones) (VarsSized n m) := by
+    (hv : VarsSized n m v) (hsp : cones.map ConeSt.kktSpec = cspecs) :
+    OkAnd (varsUnitInitialization v cones) (VarsSized n m) := by
   unfold varsUnitInitialization
   refine (CS.unitInitialization cones v.z v.s hc (by rw [hm]; exact hv.z)
-    (by rw [hm]; exact hv.s)).bind fun o ho => ?_
+    (by rw [hm]; exact hv.s) hsp).bind fun o ho => ?_
   obtain ⟨z, s⟩ := o
   obtain ⟨h1, h2⟩ := ho
   dsimp only at h1 h2 ⊢
@@ -174,13 +177,14 @@ theorem kktSysUpdate_ok {KIw KIs : KktSolver α → Prop} {n m : Nat}
       ⟨hS.x1, hS.z1, hS.x2, hS.z2, hS.workx, hS.workz, hS.workConic⟩ hKs hq hb
 
 /-- [S] `KKTSystem::solve` -/
-theorem kktSysSolve_ok {E : String → Prop} (CS : ConeStage (α := α) E) {KIw KIs : KktSolver α → Prop}
+theorem kktSysSolve_ok {E : String → Prop} {cspecs : List Kkt.ConeSpec} (CS : ConeStage (α := α) E cspecs) {KIw KIs : KktSolver α → Prop}
     {specs : List Kkt.ConeSpec} {n m : Nat}
     {st : LinSettings α} (T : KktTotal KIw KIs specs n m st) {S : KktSys α} {data : ProblemData α}
     {lhs rhs vars : Vars α} {cones : List (ConeSt α)} (dir : StepDirection)
     (hd : DataOK data) (hn : data.n = n) (hm' : data.m = m)
     (hS : KSized n m S) (hK : KIs S.kktsolver) (hc : ConesFull cones) (hm : numelAll cones = m)
-    (hlhs : VarsSized n m lhs) (hrhs : VarsSized n m rhs) (hvars : VarsSized n m vars) :
+    (hlhs : VarsSized n m lhs) (hrhs : VarsSized n m rhs) (hvars : VarsSized n m vars)
+    (hsp : cones.map ConeSt.kktSpec = cspecs) :
     OkAnd (kktSysSolve S lhs rhs data vars cones dir st)
       (fun r => VarsSized n m r.2.1 ∧ KSized n m r.2.2 ∧ KIs r.2.2.kktsolver) := by
   have hPn : data.P.n = n := hd.P_n.trans hn
@@ -223,7 +227,7 @@ theorem kktSysSolve_ok {E : String → Prop} (CS : ConeStage (α := α) E) {KIw 
       refine (waxpbyE_ok "lhs.x" (hlhs.x.trans hlx.symm) (hlhs.x.trans hS.x2.symm)).bind fun dx hdx => ?_
       refine (waxpbyE_ok "lhs.z" (hlhs.z.trans hlz.symm) (hlhs.z.trans hS.z2.symm)).bind fun dz hdz => ?_
       refine (CS.mulHs cones lhs.s dz hc (by rw [hm]; exact hlhs.s)
-        (by rw [hm, hdz]; exact hlhs.z)).bind fun hs hhs => ?_
+        (by rw [hm, hdz]; exact hlhs.z) hsp).bind fun hs hhs => ?_
       have hhsm : hs.size = m := hhs.trans hlhs.s
       refine (axpbyE_ok "lhs.s" (hhsm.trans hdc.symm)).bind fun ds hds => ?_
       exact .pure ⟨⟨hdx.trans hlhs.x, hds.trans hhsm, hdz.trans hlhs.z⟩,
@@ -236,25 +240,27 @@ theorem kktSysSolve_ok {E : String → Prop} (CS : ConeStage (α := α) E) {KIw 
   | combined =>
     dsimp only
     refine (CS.dsFromDzOffset cones S.workConic rhs.s vars.z hc (by rw [hm]; exact hS.workConic)
-      (by rw [hm]; exact hrhs.s) (by rw [hm]; exact hvars.z)).bind fun o ho => ?_
+      (by rw [hm]; exact hrhs.s) (by rw [hm]; exact hvars.z) hsp).bind fun o ho => ?_
     exact hjp o (ho.trans hS.workConic)
 
 /-! ### the bundle -/
 
 /-- the `DefaultVariables` / `DefaultKKTSystem` / top-of-pass stage of the model with nonsymmetric
 cones, from the composite-cone stage -/
-theorem midStage {E : String → Prop} (CS : ConeStage (α := α) E) : MidStage (α := α) E where
+theorem midStage {E : String → Prop} {cspecs : List Kkt.ConeSpec} (CS : ConeStage (α := α) E cspecs) :
+    MidStage (α := α) E cspecs where
   topNumerics := fun S iter hd hv hr => topNumerics_ok iter hd hv hr
-  scaleCones := fun n m v cones mu dual hc hm hv => scaleCones_ok CS mu dual hc hm hv
-  affineStepRhs := fun n m self vars r cones hc hm hself hr hv => affineStepRhs_ok CS hc hm hself hr hv
-  combinedStepRhs := fun n m self vars step r cones σ μ mm hc hm hself hr hv hstep =>
-    combinedStepRhs_ok CS σ μ mm hc hm hself hr hv hstep
-  calcStepLength := fun n m ls vars step cones maxValue msf dir hc hm hv hs =>
-    calcStepLength_ok CS ls maxValue msf dir hc hm hv hs
-  barrier := fun n m v step a cones hc hm hv hs => barrier_ok CS a hc hm hv hs
-  unitInit := fun n m v cones hc hm hv => varsUnitInitialization_ok CS hc hm hv
+  scaleCones := fun n m v cones mu dual hc hm hv hsp => scaleCones_ok CS mu dual hc hm hv hsp
+  affineStepRhs := fun n m self vars r cones hc hm hself hr hv hsp =>
+    affineStepRhs_ok CS hc hm hself hr hv hsp
+  combinedStepRhs := fun n m self vars step r cones σ μ mm hc hm hself hr hv hstep hsp =>
+    combinedStepRhs_ok CS σ μ mm hc hm hself hr hv hstep hsp
+  calcStepLength := fun n m ls vars step cones maxValue msf dir hc hm hv hs hsp =>
+    calcStepLength_ok CS ls maxValue msf dir hc hm hv hs hsp
+  barrier := fun n m v step a cones hc hm hv hs hsp => barrier_ok CS a hc hm hv hs hsp
+  unitInit := fun n m v cones hc hm hv hsp => varsUnitInitialization_ok CS hc hm hv hsp
   kktSysUpdate := fun KIw KIs n m st S data cones T hS hK hc hq hb => kktSysUpdate_ok T hS hK hc hq hb
   kktSysSolve := fun KIw KIs specs n m st S data lhs rhs vars cones dir T hd hn hm' hS hK hc hm hlhs hrhs
-      hvars => kktSysSolve_ok CS T dir hd hn hm' hS hK hc hm hlhs hrhs hvars
+      hvars hsp => kktSysSolve_ok CS T dir hd hn hm' hS hK hc hm hlhs hrhs hvars hsp
 
 end Clarabel.SolverNS
